@@ -998,7 +998,7 @@ class TestResult(unittest.TestResult):
             # ``startTest`` was not called -- set up extected state
             # (``stopTest`` will be called and will call ``testTearDown``)
             self.testSetUp()
-            self._test_state = test.__dict__
+            self._test_state = test.__dict__.copy()
             count = test.countTestCases()
             self.testsRun += count
             self.options.output.start_test(test, self.testsRun, self.count)
